@@ -52,7 +52,7 @@ var props = map[string]*propSpec{
 		Level: "exploration",
 		Rule: "one run = configuration x 1-4 RPCs whose handlers execute a random permutation of SetHeader/SendHeader/Send/SetTrailer ending in a random status (17 codes, messages, details), random request metadata (outgoing context and/or per-RPC credentials, -bin values), random call options and caller Header/Recv/Trailer orders x schedule; " +
 			"non-trivial = at least one RPC ran to its handler's own return and was compared against the reference model; distinct = distinct schedule digests",
-		Families:       []famPlan{{Family: "meta", Weight: 3}, {Family: "meta", Weight: 1, Param: map[string]int{"nonutf8": 1}}, {Family: "cancel", Weight: 1}},
+		Families:       []famPlan{{Family: "meta", Weight: 3}, {Family: "meta", Weight: 1, Param: map[string]int{"bare": 1}}, {Family: "meta", Weight: 1, Param: map[string]int{"nonutf8": 1}}, {Family: "cancel", Weight: 1}},
 		QuickBudget:    50 * time.Second,
 		ThoroughBudget: 15 * time.Minute,
 	},
